@@ -22,6 +22,9 @@ pub enum Op {
     OpenTampered { flip: u16 },
     /// the receiver is handed an already delivered message again (rejected)
     OpenReplay { which: u16 },
+    /// both contexts are positioned at sequence number 2^64-1 (hook) and one last message is sealed
+    /// and opened, so that both are exhausted; exports must be unaffected
+    Exhaust,
 }
 
 #[derive(Clone, Debug, Serialize, Deserialize)]
@@ -50,6 +53,7 @@ fn op_strategy(nh: usize) -> BoxedStrategy<Op> {
         2 => Just(Op::OpenNext),
         1 => any::<u16>().prop_map(|flip| Op::OpenTampered { flip }),
         1 => any::<u16>().prop_map(|which| Op::OpenReplay { which }),
+        1 => Just(Op::Exhaust),
     ]
     .boxed()
 }
@@ -103,6 +107,7 @@ fn check_history(sess: &Session, ops: &[Op], obs: &mut Obs) -> Verdict {
     let mut sealed: Vec<(Vec<u8>, Msg)> = Vec::new();
     let mut delivered = 0usize;
     let mut touched = [false, false];
+    let mut exhausted = false;
     let mut last = "setup".to_string();
     let nh = suite.kdf.nh();
     for op in ops {
@@ -128,11 +133,31 @@ fn check_history(sess: &Session, ops: &[Op], obs: &mut Obs) -> Verdict {
                     obs.label("export-at-boundary");
                 }
             }
+            Op::Exhaust => {
+                if sealing && !exhausted {
+                    // deliver everything outstanding first, then jump both sides to the last position
+                    while delivered < sealed.len() {
+                        let (ct, m) = &sealed[delivered];
+                        let _ = rcv.open(ct, &m.aad);
+                        delivered += 1;
+                    }
+                    snd.set_seq(u64::MAX);
+                    rcv.set_seq(u64::MAX);
+                    if let Ok(ct) = snd.seal(b"last message", b"") {
+                        let _ = rcv.open(&ct, b"");
+                    }
+                    exhausted = true;
+                    touched = [true, true];
+                    last = "exhaustion of both contexts".into();
+                    obs.label("exhausted");
+                }
+            }
             Op::Seal(m) => {
                 touched[0] = true;
                 if sealing {
                     match snd.seal(&m.pt, &m.aad) {
                         Ok(ct) => sealed.push((ct, m.clone())),
+                        Err(HpkeError::MessageLimitReached) if exhausted => {}
                         Err(e) => return Verdict::skip(format!("construction_failed(seal:{:?})", e)),
                     }
                     last = "seal".into();
@@ -229,7 +254,7 @@ impl Property for P {
         "C11"
     }
     fn rule(&self) -> String {
-        "Generated: (suite of 48, mode, session) with histories interleaving exports on either side (L from boundaries {0,1,Nh+-1,255Nh+-1,65535+-1,100000} and uniform) with seals, opens, rejected deliveries, and panicking seal/open attempts on export-only suites. \
+        "Generated: (suite of 48, mode, session) with histories interleaving exports on either side (L from boundaries {0,1,Nh+-1,255Nh+-1,65535+-1,100000} and uniform) with seals, opens, rejected deliveries, exhaustion of both contexts at 2^64-1 (hook), and panicking seal/open attempts on export-only suites. \
          Swept: 48x4 cells; every L in 0..=400 and within 40 of 255*Nh and of 2^16 for each KDF (thorough: every L in 0..=66000 per KDF). \
          Oracle: reference LabeledExpand(exporter_secret_ref, \"sec\", ctx, L); Ok iff L<=255*Nh else KdfOutputTooLong; repeatable; sender==receiver. \
          Non-trivial: an export after traffic on the same context, or L within 2 of a boundary, or an L-range sweep."
@@ -268,6 +293,9 @@ impl Property for P {
             for (i, l) in boundary_lens(nh).into_iter().enumerate() {
                 ops.push(Op::Export { side: (i % 2) as u8, ctx: Bytes(gen::fill(i, 5, 3)), len: l });
             }
+            ops.push(Op::Exhaust);
+            ops.push(Op::Export { side: 0, ctx: Bytes(b"after".to_vec()), len: 32 });
+            ops.push(Op::Export { side: 1, ctx: Bytes(b"after".to_vec()), len: nh + 1 });
             cells.push(Case::History { sess: gen::cell_session(s, m, 11), ops });
         }
         let mut ranges = Vec::new();
